@@ -64,6 +64,7 @@ type World struct {
 	streamsEx int // stream handlers returned
 	pushN     int // messages a stream handler pushes before echoing
 	streamLog map[byte][]string
+	streamEnd [][3]string // per ended handler: error of the blocked read, of a later write, of a later read
 }
 
 func newWorld() *World {
